@@ -9,7 +9,7 @@
 (* so that every event is judged); the driver requires that the number of  *)
 (* distinct states equals 1 + K + N, i.e. that every event was evaluated.  *)
 (***************************************************************************)
-EXTENDS EditCheck, SerdeModel, DepthDef, Containers, WalkDef, BuildDef, Json, IOUtils
+EXTENDS EditCheck, SerdeModel, DepthDef, Containers, WalkDef, BuildDef, ParseStateImpl, Json, IOUtils
 
 Ev == ndJsonDeserialize(IOEnv.TRACE)
 N == Len(Ev)
@@ -576,6 +576,23 @@ CheckDigest(i) ==
             ELSE Report(i, "digest-differs", [item |-> e.item, kind |-> e.kind, cells |-> e.cells]) /\ FALSE
 CheckCfgBuild(i) == IF Ev[i].ok THEN TRUE ELSE Report(i, "config-does-not-build", [cell |-> Ev[i].cell]) /\ FALSE
 
+\* ---- model drift: the implementation-shaped parser state against the real parser's flags ----
+RECURSIVE FoldPSV(_, _, _)
+FoldPSV(ps, h, i) == IF i > Len(h) \/ ~ps.ok THEN ps ELSE FoldPSV(ApplyPS(ps, h[i]), h, i + 1)
+CheckFlags(i) ==
+  LET e == Ev[i]
+      s == Statements(e.text)
+  IN IF ~s.ok THEN TRUE
+     ELSE LET ps0 == FoldPSV(InitPS, s.stmts, 1)
+              ps == IF ps0.ok THEN IntoDocument(ps0) ELSE ps0
+          IN IF ps.ok # (e.res = "ok") THEN Report(i, "drift-verdict", [model |-> ps.ok, impl |-> e.res]) /\ FALSE
+             ELSE ps.ok =>
+                  LET fl == Flags(ps.root, <<>>) IN
+                  IF Len(fl) = Len(e.flags) /\ \A x \in 1..Len(fl) :
+                       /\ fl[x].path = e.flags[x].path /\ fl[x].implicit = e.flags[x].implicit
+                       /\ fl[x].dotted = e.flags[x].dotted /\ fl[x].pos = e.flags[x].pos
+                  THEN TRUE ELSE Report(i, "drift-flags", [model |-> fl, impl |-> e.flags]) /\ FALSE
+
 U1Note(i) == Ev[i].ev = "parse" /\ ParseDocument(Ev[i].text).res = "u1" => PrintT(ToJson([u1 |-> i]))
 
 CheckEvent(i) ==
@@ -598,6 +615,7 @@ CheckEvent(i) ==
     [] Ev[i].ev = "build" -> CheckBuild(i)
     [] Ev[i].ev = "macro" -> CheckMacro(i)
     [] Ev[i].ev = "edit" -> CheckEdit(i)
+    [] Ev[i].ev = "flags" -> CheckFlags(i)
     [] Ev[i].ev = "digest" -> CheckDigest(i)
     [] Ev[i].ev = "cfgbuild" -> CheckCfgBuild(i)
     [] OTHER -> Report(i, "unknown-event", Ev[i].ev) /\ FALSE
